@@ -16,6 +16,10 @@ mod c_asm;
 mod c_time;
 mod c_year;
 mod c_fixed;
+mod c_patsel;
+mod c_frender;
+mod c_syslc;
+mod c_rgx;
 
 use std::io::Write;
 
@@ -97,6 +101,10 @@ fn main() {
         "time" => if replay { replay_loop(&mut out, c_time::replay_line) } else { c_time::run(&opts, &mut out) },
         "fixed" => if replay { replay_loop(&mut out, c_fixed::replay_line) } else { c_fixed::run(&opts, &mut out) },
         "year" => if replay { replay_loop(&mut out, c_year::replay_line) } else { c_year::run(&opts, &mut out) },
+        "patsel" => if replay { replay_loop(&mut out, c_patsel::replay_line) } else { c_patsel::run(&opts, &mut out) },
+        "frender" => if replay { replay_loop(&mut out, c_frender::replay_line) } else { c_frender::run(&opts, &mut out) },
+        "syslc" => if replay { replay_loop(&mut out, c_syslc::replay_line) } else { c_syslc::run(&opts, &mut out) },
+        "rgx" => if replay { replay_loop(&mut out, c_rgx::replay_line) } else { c_rgx::run(&opts, &mut out) },
         "path-oracle" => c_path::oracle(&opts, &mut out),
         _ => {
             eprintln!("unknown component {}", comp);
